@@ -414,7 +414,48 @@ def ref_entry(fn) -> dict:
     """what the reference table stores for one function"""
     names = local_names(fn)
     sites = [(n, k, _canon_with(v, {}, set())) for n, k, v in binding_sites(fn) if n in names]
-    return {"locals": names, "sites": sites, "digest": digest(fn), "comps": [names_ for _, names_ in comp_sites(fn)]}
+    return {"locals": names, "sites": sites, "digest": digest(fn), "comps": [names_ for _, names_ in comp_sites(fn)],
+            "quants": quantifier_sites(fn), "params_read": params_read(fn)}
+
+
+def quantifier_sites(fn) -> list:
+    """[quantifier, negated?, canonical argument] for every all()/any()/np.all()/np.any()/x.all()/x.any() of the function (nested scopes included)"""
+    from . import sym
+    par = {}
+    for a in ast.walk(fn):
+        for c in ast.iter_child_nodes(a):
+            par[c] = a
+    out = []
+    for n in ast.walk(fn):
+        if not isinstance(n, ast.Call):
+            continue
+        f = n.func
+        q = arg = None
+        if isinstance(f, ast.Name) and f.id in ("all", "any") and n.args:
+            q, arg = f.id, n.args[0]
+        elif isinstance(f, ast.Attribute) and f.attr in ("all", "any"):
+            if isinstance(f.value, ast.Name) and f.value.id in ("np", "numpy"):
+                if n.args:
+                    q, arg = f.attr, n.args[0]
+            else:
+                q, arg = f.attr, f.value
+        if q is None:
+            continue
+        up = par.get(n)
+        neg = isinstance(up, ast.UnaryOp) and isinstance(up.op, (ast.Not, ast.Invert))
+        try:
+            c = sym.canon(arg)
+        except Exception:
+            c = ast.dump(arg)
+        out.append([q, bool(neg), c])
+    return out
+
+
+def params_read(fn) -> list:
+    a = fn.args
+    names = [x.arg for x in a.posonlyargs + a.args + a.kwonlyargs]
+    read = {n.id for st in fn.body for n in ast.walk(st) if isinstance(n, ast.Name) and isinstance(n.ctx, ast.Load)}
+    return [p for p in names if p in read]
 
 
 def align(fn, ref: dict) -> Dict[str, str]:
